@@ -3,6 +3,34 @@
 PBT = 'property-based testing (Hypothesis) against '
 
 CHECKS = [
+    {'id': 'C01', 'memwire': True, 'level': 'fault_enumeration',
+     'text': 'Fault enumeration over the encrypted stream: for every cipher '
+             'x MAC pair asyncssh registers (compression none in quick, all '
+             'three in thorough), both directions, and 14 tamper shapes '
+             '(bit flips in length / first block / body / padding / tag, '
+             'truncate, drop, duplicate, swap, splice, insert) on an IGNORE '
+             'and on a DATA record, plus Hypothesis-generated workloads, bit '
+             'positions and record indices, plus tampering of the encrypted '
+             'auth/session-setup dialogue. Oracle: delivered data == data '
+             'carried by untouched records, immediate failure when the '
+             'length field is intact, error (never clean close) at the end.',
+     'note': 'Both endpoints asyncssh; wire parameters derived from algorithm '
+             'names; one packet per transport.write; finite grid is '
+             'exhaustive over algorithms x shapes, not over bit positions.',
+     'technique': 'fault injection on generated/enumerated encrypted records '
+                  'with a prefix-delivery oracle (PBT + exhaustive grid)'},
+    {'id': 'C02', 'memwire': True,
+     'text': 'Differential against an independent RFC 4253 peer (refpeer, '
+             'itself calibrated against OpenSSH over 870 algorithm triples) '
+             'which must decode every packet asyncssh emits in either role '
+             'with self-derived keys, checking section 6 framing; payload '
+             'sequences compared both ways under generated chunkings; every '
+             'registered algorithm additionally asyncssh<->asyncssh; OpenSSH '
+             'ssh client against an asyncssh listener.',
+     'note': 'refpeer + OpenSSH 9.2 client are the trusted references; client '
+             'role has one independent peer.',
+     'technique': 'differential PBT against an independent protocol '
+                  'implementation and the OpenSSH client'},
     {'id': 'C07', 'memwire': True,
      'text': 'Generated op-list programs (writes around window/packet '
              'boundaries, EOF, pause/resume, 1..3 channels, text encodings, '
